@@ -9,9 +9,10 @@
    counted its own evaluations).  After the repairs (fix commits 988d08c and 9737159) they are
    proved below without restricting hypotheses; the former `_partial` theorems are gone.
 
-   Still open (known_findings.d/C16.json, findings/F_C16_callbacks.v): the history key of a
-   custom metric, '<phase>_<name>' in the callbacks vs '<phase>__<name>' in the solver; the
-   model has the two loss histories only, so no theorem below speaks about custom metrics. *)
+   The history key of a custom metric ('<phase>_<name>' built by the callbacks vs
+   '<phase>__<name>' stored by the solver) was repaired by commit 98a9d3c (_metric_history):
+   C16_metric_loss_spec / C16_metric_custom_spec / C16_metric_recorded_spec state which series a
+   callback reads, C16_gen_metric_history ties the helper to the source.  No open finding. *)
 From Coq Require Import String ZArith List Bool Reals.
 From Flocq Require Import Core.Raux.
 From ND.model Require Import Callbacks CallbacksEve.
@@ -82,8 +83,8 @@ Proof. exact monitor_default_spec. Qed.
 
 (* ---- stop ------------------------------------------------------------------------------ *)
 
-Theorem C16_stop_spec : forall feed von max_epochs mask s cbs s' cbs' recs,
-  fit feed von max_epochs mask s cbs = (s', cbs', recs) ->
+Theorem C16_stop_spec : forall feed cfeed von max_epochs mask s cbs s' cbs' recs,
+  fit feed cfeed von max_epochs mask s cbs = (s', cbs', recs) ->
   Z.of_nat (length recs) <= Z.max 0 max_epochs /\
   (0 < max_epochs -> recs <> []) /\
   (forall i r, nth_error recs i = Some r ->
@@ -109,19 +110,32 @@ Proof. exact @optimizer_params_nodup. Qed.
 
 (* ---- repeated-metric callbacks: every history, every state, whenever evaluated ---------- *)
 
-Theorem C16_repeated_spec : forall k tr n s v,
-  pairwise_of k = true ->
-  let h := hist_of tr v in
-  cond v (PRepeated k tr n s) = true <->
-  (forall i : nat, Z.of_nat i < n -> (S i < length h)%nat /\ rel_of k (nth i h 0) (nth (S i) h 0) = true).
+Theorem C16_repeated_spec : forall k tr mt n s v h,
+  pairwise_of k = true -> hist_of tr mt v = Some h ->
+  cond v (PRepeated k tr mt n s) = true <->
+  (forall i : nat, Z.of_nat i < n -> (S i < List.length h)%nat /\ rel_of k (nth i h 0) (nth (S i) h 0) = true).
 Proof. exact repeated_spec. Qed.
 
-Theorem C16_below_above_spec : forall k tr n s v,
-  pairwise_of k = false ->
-  let h := hist_of tr v in
-  cond v (PRepeated k tr n s) = true <->
-  (forall i : nat, Z.of_nat i < n -> (i < length h)%nat /\ val_of k (nth i h 0) = true).
+Theorem C16_below_above_spec : forall k tr mt n s v h,
+  pairwise_of k = false -> hist_of tr mt v = Some h ->
+  cond v (PRepeated k tr mt n s) = true <->
+  (forall i : nat, Z.of_nat i < n -> (i < List.length h)%nat /\ val_of k (nth i h 0) = true).
 Proof. exact below_above_spec. Qed.
+
+(* which series h is: the one the solver records for that metric in that phase *)
+Theorem C16_metric_loss_spec : forall v tr, hist_of tr "loss" v = Some (if tr then v_train v else v_valid v).
+Proof. exact metric_loss_spec. Qed.
+
+Theorem C16_metric_custom_spec : forall v tr m,
+  dict_has (store_of v) (callback_key tr m) = false ->
+  hist_of tr m v = dict_get (store_of v) (solver_key tr m).
+Proof. exact metric_custom_spec. Qed.
+
+Theorem C16_metric_recorded_spec : forall v tr m t va,
+  dict_has (store_of v) (callback_key tr m) = false ->
+  find (fun e => String.eqb (fst e) m) (v_custom v) = Some (m, (t, va)) ->
+  hist_of tr m v = Some (if tr then t else va).
+Proof. exact metric_recorded_spec. Qed.
 
 (* generic in the value type and the relation: the loop of condition() against the history *)
 Theorem C16_streak_cap_spec : forall {V : Type} (rel : V -> V -> bool) (d : V) (cap n : nat) (h : list V),
@@ -195,14 +209,24 @@ Proof. exact gen_xor. Qed.
 Theorem C16_gen_call : forall c a, ConditionCallback.call c a = c && a.
 Proof. exact gen_call. Qed.
 
-Theorem C16_gen_repeated : forall (arg n s : Z) (tr : bool) (metric : string) (v : view),
-  RepeatedMetricUp.fires arg tr metric n (hist_of tr v) = cond v (PRepeated (RUp arg) tr n s) /\
-  RepeatedMetricDown.fires arg tr metric n (hist_of tr v) = cond v (PRepeated (RDown arg) tr n s) /\
-  RepeatedMetricConverge.fires arg tr metric n (hist_of tr v) = cond v (PRepeated (r_converge arg) tr n s) /\
-  RepeatedMetricDiverge.fires arg tr metric n (hist_of tr v) = cond v (PRepeated (r_diverge arg) tr n s) /\
-  RepeatedMetricBelow.fires arg tr metric n (hist_of tr v) = cond v (PRepeated (RBelow arg) tr n s) /\
-  RepeatedMetricAbove.fires arg tr metric n (hist_of tr v) = cond v (PRepeated (RAbove arg) tr n s).
+Theorem C16_gen_repeated : forall (arg n s : Z) (tr : bool) (mt : string) (v : view),
+  RepeatedMetricUp.fires arg tr mt n (hist_or_nil tr mt v) = cond v (PRepeated (RUp arg) tr mt n s) /\
+  RepeatedMetricDown.fires arg tr mt n (hist_or_nil tr mt v) = cond v (PRepeated (RDown arg) tr mt n s) /\
+  RepeatedMetricConverge.fires arg tr mt n (hist_or_nil tr mt v) = cond v (PRepeated (r_converge arg) tr mt n s) /\
+  RepeatedMetricDiverge.fires arg tr mt n (hist_or_nil tr mt v) = cond v (PRepeated (r_diverge arg) tr mt n s) /\
+  RepeatedMetricBelow.fires arg tr mt n (hist_or_nil tr mt v) = cond v (PRepeated (RBelow arg) tr mt n s) /\
+  RepeatedMetricAbove.fires arg tr mt n (hist_or_nil tr mt v) = cond v (PRepeated (RAbove arg) tr mt n s).
 Proof. exact gen_repeated. Qed.
+
+(* the helper _metric_history as translated = the model's lookup; the callbacks use it with the key
+   their constructors build *)
+Theorem C16_gen_metric_history : forall d key, MetricHistory.metric_history d key = Callbacks.metric_history d key.
+Proof. exact gen_metric_history. Qed.
+
+Theorem C16_gen_history_of : forall (tr : bool) (mt : string) (n : Z) (v : view) (v0 p : R) (n_0 : Z) (n_max : option Z),
+  RepeatedMetricChange.history_of (store_of v) (RepeatedMetricChange.init_key tr mt n) = hist_of tr mt v /\
+  EveCallback.history_of (store_of v) (EveCallback.init_key v0 p n_0 n_max tr mt) = hist_of tr mt v.
+Proof. exact gen_history_of. Qed.
 
 (* the fuel the emitter gives the while loop is enough: any extra fuel yields the same counter *)
 Theorem C16_gen_loop_fuel_adequate : forall pw ls n h extra,
